@@ -90,14 +90,6 @@ func check(sub string) func(t h.TB, c Case) {
 			h.KnownHit("KF-3")
 			return
 		}
-		if known.InlineCommentGroup(ref) || known.InlineCommentGroup(in) {
-			// open finding KF-4: go/printer holds back comment groups that contain a newline but
-			// flushes single comments; the restorer makes every comment its own group, so members
-			// of such a group end up on the other side of a token go/printer positions itself
-			// (',' ']' ...), where a line break can even split the statement.
-			h.KnownHit("KF-4")
-			return
-		}
 		tr, cr, _ := oracle.Scan(ref)
 		to, co, ok := oracle.Scan(out.Bytes())
 		if !ok {
@@ -313,7 +305,36 @@ func TestPropKF5(t *testing.T) { rapid.Check(t, propKF5) }
 
 func TestReplay(t *testing.T) {
 	known.RunWitnesses(t, "C03", func(t h.TB, w known.Witness) {
-		check("Witness")(t, Case{Src: w.Input})
+		if !w.Open {
+			check("Witness")(t, Case{Src: w.Input}) // a repaired finding: an ordinary regression input
+			return
+		}
+		// witnesses of open findings are judged strictly, whatever class they are in: output
+		// parses, tokens and comment sequence are those of gofmt(input)
+		in := []byte(w.Input)
+		ref, _, err := oracle.Canon(in)
+		if err != nil {
+			t.Fatalf("harness: witness does not parse: %v", err)
+		}
+		f, err := decorator.Parse(in)
+		if err != nil {
+			h.Fail(t, "Witness", w, "Parse: %v", err)
+		}
+		var out bytes.Buffer
+		if err := decorator.Fprint(&out, f); err != nil {
+			h.Fail(t, "Witness", w, "Fprint: %v", err)
+		}
+		if _, _, err := oracle.Parse(out.Bytes()); err != nil {
+			h.Fail(t, "Witness", w, "output does not parse: %v", err)
+		}
+		tr, cr, _ := oracle.Scan(ref)
+		to, co, _ := oracle.Scan(out.Bytes())
+		if d := oracle.DiffToks(tr, to); d != "" {
+			h.Fail(t, "Witness", w, "tokens: %s", d)
+		}
+		if d := oracle.DiffStrings(cr, co); d != "" {
+			h.Fail(t, "Witness", w, "comments: %s", d)
+		}
 	})
 	known.RunRegressions(t, "C03")
 	// corpus sweep: every corpus file that parses, verbatim (canonical or not)
